@@ -11,14 +11,14 @@ public:
   explicit Buffer(usize capacity)
       : _capacity(capacity)
   {
-    bufferStart = bufferEnd = buffer = (byte*)new char[capacity + 1];
+    bufferStart = bufferEnd = buffer = allocate(capacity);
     *bufferEnd = 0;
   }
 
   Buffer(const Buffer& other)
       : _capacity(other.bufferEnd - other.bufferStart)
   {
-    bufferStart = buffer = (byte*)new char[_capacity + 1];
+    bufferStart = buffer = allocate(_capacity);
     Memory::copy(buffer, other.bufferStart, _capacity);
     bufferEnd = bufferStart + _capacity;
     *bufferEnd = 0;
@@ -27,7 +27,7 @@ public:
   Buffer(const byte* data, usize size)
       : _capacity(size)
   {
-    bufferStart = buffer = (byte*)new char[size + 1];
+    bufferStart = buffer = allocate(size);
     Memory::copy(buffer, data, size);
     bufferEnd = bufferStart + size;
     *bufferEnd = 0;
@@ -59,7 +59,7 @@ public:
     {
       delete[] (char*)buffer;
       _capacity = size;
-      buffer = (byte*)new char[size + 1];
+      buffer = allocate(size);
     }
     else if(!buffer)
     {
@@ -79,7 +79,7 @@ public:
     {
       delete[] (char*)buffer;
       _capacity = size;
-      buffer = (byte*)new char[size + 1];
+      buffer = allocate(size);
     }
     else if(!buffer)
     {
@@ -125,7 +125,7 @@ public:
     else
     {
         _capacity = requiredCapacity;
-      byte* newBuffer = (byte*)new char[requiredCapacity + 1];
+      byte* newBuffer = allocate(requiredCapacity);
       Memory::copy(newBuffer, data, size);
       Memory::copy(newBuffer + size, bufferStart, oldSize);
       delete [] (char*)buffer;
@@ -168,7 +168,7 @@ public:
     if(size > _capacity)
     {
         _capacity = size;
-      byte* newBuffer = (byte*)new char[size + 1];
+      byte* newBuffer = allocate(size);
       usize oldSize = bufferEnd - bufferStart;
       Memory::copy(newBuffer, bufferStart, oldSize < size ? oldSize : size);
       delete[] (char*)buffer;
@@ -228,7 +228,7 @@ public:
     if(capacity < size)
       capacity = size;
     _capacity = capacity;
-    byte* newBuffer = (byte*)new char [capacity + 1];
+    byte* newBuffer = allocate(capacity);
     Memory::copy(newBuffer, bufferStart, size);
     delete[] (char*)buffer;
     bufferStart = buffer = newBuffer;
@@ -271,6 +271,15 @@ public:
     buffer = 0;
     bufferStart = bufferEnd = (byte*)&_capacity;
     _capacity = 0;
+  }
+
+private:
+  static byte* allocate(usize capacity)
+  {
+    usize size = capacity + 1; // the data bytes and their terminator
+    if(!size)
+      size = capacity; // capacity + 1 wrapped to 0: request what cannot be had, so that this fails like any other oversized request
+    return (byte*)new char[size];
   }
 
 private:
